@@ -125,10 +125,12 @@ type run struct {
 	step      int
 	tok       int
 
-	sawOverflow bool
-	sawReset    bool
-	ackBusy     map[string]bool // busy requests already attributed to an absorbed finding
-	dead        bool            // pool unusable (absorbed deadlock): stop
+	sawOverflow  bool
+	sawReset     bool
+	ackBusy      map[string]bool // busy requests already attributed to an absorbed finding
+	dead         bool            // pool unusable (absorbed deadlock): stop
+	shortConnect bool            // the cluster has the short connect_timeout of blackhole histories
+	holeDials    int             // leases that had to dial into the blackhole (each blocks for connect_timeout)
 }
 
 func (r *run) logf(format string, a ...interface{}) {
@@ -508,6 +510,13 @@ func (r *run) lease() *failure {
 	// The multiplex pool replaces a lost connection asynchronously and offers no books to tell when it
 	// is done: right after a close one request may still fail (as in the proxy, which then retries).
 	// Capacity "becomes available again" is judged over a few tries spread over ~0.6 s.
+	if r.mode == pool.ModeBlackhole && len(r.idle) == 0 {
+		if r.holeDials >= 2 {
+			r.logf("lease skipped: two dials into the blackhole already cost 2 x connect_timeout")
+			return nil
+		}
+		r.holeDials++
+	}
 	backoff := []time.Duration{0}
 	if r.h.Kind == pool.Mux && r.mode == pool.ModeAccept && !r.shut {
 		// measured: after a close the pool may hand out the dead connection for a few milliseconds
@@ -535,6 +544,7 @@ func (r *run) leaseOnce(last bool) (soft bool, _ *failure) {
 		initWait = 30 * time.Millisecond // the multiplex pool cannot connect: do not wait for long
 	}
 	r.markLeaseAfterGoAway()
+	timeoutsBefore := r.rig.Host.HostStats().UpstreamRequestTimeout.Count()
 	res := r.rig.Lease(tok, initWait)
 	r.out.leases++
 	if res.Hang != nil {
@@ -608,6 +618,16 @@ func (r *run) leaseOnce(last bool) (soft bool, _ *failure) {
 	case res.Reason != "":
 		r.logf("lease %s: %s", tok, res.Reason)
 		r.class("conn-failure")
+		if r.mode == pool.ModeBlackhole {
+			r.class("connect-timeout")
+		}
+		if to := r.rig.Host.HostStats().UpstreamRequestTimeout.Count(); r.mode == pool.ModeAccept && r.shortConnect && to > timeoutsBefore {
+			// a loopback connect to a listening port that takes longer than connect_timeout is the machine, and a
+			// connect timeout is by nature a matter of time: this history ends here and is not judged further
+			r.class("connect-timeout-on-accepting-upstream(timing)")
+			r.dead = true
+			return false, nil
+		}
 		if r.mode == pool.ModeAccept && hadIdle == 0 {
 			if r.h.Kind == pool.Mux && !last {
 				return true, r.settle("lease-connection-failure")
@@ -1053,7 +1073,7 @@ func (r *run) goaway(c *mconn) *failure {
 }
 
 func (r *run) setMode(m int) *failure {
-	if m == pool.ModeNoListen && !r.rig.Up.CanRefuse() {
+	if (m == pool.ModeNoListen || m == pool.ModeBlackhole) && !r.rig.Up.CanRefuse() {
 		m = pool.ModeRST
 	}
 	r.logf("upstream mode %d", m)
@@ -1268,6 +1288,12 @@ func (r *run) do(op Op) (f *failure, skipped bool) {
 		return r.setMode(pool.ModeRST), false
 	case "refuse":
 		return r.setMode(pool.ModeNoListen), false
+	case "blackhole":
+		if !r.pingpong() {
+			return nil, true // the multiplex pool dials in the background: its connect timeout is not a step of the history
+		}
+		r.class("blackhole")
+		return r.setMode(pool.ModeBlackhole), false
 	case "foreign+":
 		if r.h.MaxReq == 0 || r.foreign >= int(r.h.MaxReq) {
 			return nil, true
@@ -1358,17 +1384,33 @@ func (r *run) finish() *failure {
 	return nil
 }
 
+const blackholeConnectTimeout = 400 * time.Millisecond
+
+func historyHas(ops []Op, k string) bool {
+	for _, o := range ops {
+		if o.K == k || historyHas(o.Sub, k) {
+			return true
+		}
+	}
+	return false
+}
+
 // execute runs a sequential history once.
 func execute(part string, h History, d time.Duration) *outcome {
 	out := &outcome{classes: map[string]bool{}}
-	rig, err := pool.NewRig(h.Kind, h.MaxConn, h.MaxReq)
+	// a history that makes the upstream swallow SYNs gets a short connect_timeout (MOSN's default is 10 s)
+	var connectTimeout time.Duration
+	if historyHas(h.Ops, "blackhole") {
+		connectTimeout = blackholeConnectTimeout
+	}
+	rig, err := pool.NewRigConnectTimeout(h.Kind, h.MaxConn, h.MaxReq, connectTimeout)
 	if err != nil {
 		out.fail = &failure{sig: "harness/rig", msg: err.Error(), timing: true}
 		return out
 	}
 	defer rig.Close()
 	rig.Limit = d
-	r := &run{h: h, part: part, rig: rig, out: out, d: d, ackBusy: map[string]bool{}}
+	r := &run{h: h, part: part, rig: rig, out: out, d: d, ackBusy: map[string]bool{}, shortConnect: connectTimeout > 0}
 	out.classes["kind:"+string(h.Kind)] = true
 	for i, op := range h.Ops {
 		r.step = i + 1
